@@ -196,11 +196,13 @@ def isExact (x : Int) : Bool :=
      r.1 * 2 ^ r.2 == x.natAbs * 2 ^ 1074)
 
 /-- Python `n / d` on `int`s: correctly rounded (`long_true_divide`), `OverflowError` beyond the range. -/
-def pyTrueDiv (n : Int) (d : Int) : Except RenderErr FVal :=
-  if d = 0 then .error .zeroDivision else
-  match roundTo binary64 (decide (n < 0) != decide (d < 0)) (n.natAbs * 2 ^ 1074) d.natAbs with
+def finiteOrOverflow : FVal → Except RenderErr FVal
   | .fin s m E => .ok (.fin s m E)
   | _ => .error .overflow
+
+def pyTrueDiv (n : Int) (d : Int) : Except RenderErr FVal :=
+  if d = 0 then .error .zeroDivision else
+  finiteOrOverflow (roundTo binary64 (decide (n < 0) != decide (d < 0)) (n.natAbs * 2 ^ 1074) d.natAbs)
 
 /-! ### `repr(float)` -/
 
@@ -295,18 +297,20 @@ def formatRepr (ds : Str) (dp : Int) : Str :=
       | c :: cs => c :: '.' :: cs
     mant ++ 'e' :: (if e < 0 then '-' else '+') :: pad2 e.natAbs
 
+/-- `repr` of a positive finite float `m * 2^E / 2^1074`, or of zero: the text after the sign. -/
+def reprBody (m E : Nat) : Str :=
+  if m = 0 then "0.0".toList else
+  let (d, e10) := (shortestDigits? m E).getD (digits17 m E)
+  let d' := stripZeros 400 d
+  let ds := natStr d'
+  -- value = d * 10^e10 = 0.ds * 10^(e10 + number of digits of d)
+  formatRepr ds (e10 + (natStr d).length)
+
 /-- `repr(x)` of a Python float. -/
 def pyFloatRepr : FVal → Str
   | .nan => "nan".toList
   | .inf neg => if neg then "-inf".toList else "inf".toList
-  | .fin neg m E =>
-    let sign : Str := if neg then ['-'] else []
-    if m = 0 then sign ++ "0.0".toList else
-    let (d, e10) := (shortestDigits? m E).getD (digits17 m E)
-    let d' := stripZeros 400 d
-    let ds := natStr d'
-    -- value = d * 10^e10 = 0.ds * 10^(e10 + number of digits of d)
-    sign ++ formatRepr ds (e10 + (natStr d).length)
+  | .fin neg m E => (if neg then ['-'] else []) ++ reprBody m E
 
 /-- `_float_literal_expression(value)` -/
 def floatLiteralExpression (f : Frac) : Except RenderErr Str :=
@@ -454,8 +458,8 @@ def lexIntSuffix (ip : Str) (r : Str) : Option (Tok × Str) :=
   else if ip.head? = some '0' then none            -- other octal literals: not in this fragment
   else some (.int (digitsVal ip) true u2.1 l1.1, u2.2)
 
-/-- A number token at the head of `cs` (which starts with a digit). -/
-def lexNum (cs : Str) : Option (Tok × Str) :=
+/-- The number grammar applied to a text: the token and what is left over. -/
+def lexNumRaw (cs : Str) : Option (Tok × Str) :=
   let ip := spanDigits cs
   match ip.2 with
   | [] => lexIntSuffix ip.1 []
@@ -465,6 +469,54 @@ def lexNum (cs : Str) : Option (Tok × Str) :=
       lexExp (ip.1 ++ fp.1) fp.1.length fp.2
     else if c = 'e' ∨ c = 'E' then lexExp ip.1 0 (c :: r)
     else lexIntSuffix ip.1 (c :: r)
+
+/-- The preprocessing number at the head of the text (C11 6.4.8): digits, letters, `_`, `.`, and a sign directly
+after `e` / `E` — the maximal munch every C / C++ lexer takes before it looks at what the number means.
+The flag: the previous character was `e` / `E`. -/
+def spanPP : Bool → Str → Str × Str
+  | _, [] => ([], [])
+  | prevE, c :: cs =>
+    if isIdChar c || c = '.' then ((c :: (spanPP (c = 'e' || c = 'E') cs).1), (spanPP (c = 'e' || c = 'E') cs).2)
+    else if prevE && (c = '+' || c = '-') then ((c :: (spanPP false cs).1), (spanPP false cs).2)
+    else ([], c :: cs)
+
+/-- A number token: the whole preprocessing number must be a literal of the fragment. -/
+def lexNumTok (pp : Str) : Option Tok :=
+  match lexNumRaw pp with
+  | some (t, []) => some t
+  | _ => none
+
+/-- A number token at the head of `cs` (which starts with a digit). -/
+def lexNum (cs : Str) : Option (Tok × Str) :=
+  match lexNumTok (spanPP false cs).1 with
+  | some t => some (t, (spanPP false cs).2)
+  | none => none
+
+/-- every character of `s` belongs to the preprocessing number started before it -/
+def ppAll : Bool → Str → Bool
+  | _, [] => true
+  | prevE, c :: cs =>
+    if isIdChar c || c = '.' then ppAll (c = 'e' || c = 'E') cs
+    else if prevE && (c = '+' || c = '-') then ppAll false cs
+    else false
+
+/-- the `spanPP` flag after `s` -/
+def ppFlag : Bool → Str → Bool
+  | b, [] => b
+  | prevE, c :: cs =>
+    if isIdChar c || c = '.' then ppFlag (c = 'e' || c = 'E') cs
+    else if prevE && (c = '+' || c = '-') then ppFlag false cs
+    else false
+
+/-- The decimal text `repr` prints for `m * 2^E / 2^1074` is one preprocessing number starting with a digit, it is
+a floating literal of the fragment, and that literal, correctly rounded, is the same double again (the round-trip
+property of `repr`).  Executable; hypothesis of `C05_float_fallback_literal_partial`. -/
+def reprReadsBack (m E : Nat) : Bool :=
+  let s := reprBody m E
+  (match s with | c :: _ => c.isDigit | [] => false) && ppAll false s && !ppFlag false s &&
+  (match lexNumTok s with
+   | some (.flt mant e10 .none) => roundDec binary64 false mant e10 == .fin false m E
+   | _ => false)
 
 def spanIdent : Str → Str × Str
   | [] => ([], [])
